@@ -31,7 +31,8 @@ def main():
                         fired.append(lines[i + 1].strip()[:150])
                 if c.returncode == 2:
                     fired.append('ANALYSIS-ERROR ' + c.stdout[-200:])
-            print(sid, 'DETECTED' if fired else 'missed', '|', ' || '.join(fired[:3]))
+            verdict = 'ANALYSIS-ERROR' if any(f.startswith('ANALYSIS-ERROR') for f in fired) else ('DETECTED' if fired else 'missed')
+            print(sid, verdict, '|', ' || '.join(fired[:3]))
             meta['detected_by'] = fired
             if os.path.exists(os.path.join(d, 'meta.json')):
                 json.dump(meta, open(os.path.join(d, 'meta.json'), 'w'), indent=1)
